@@ -80,7 +80,7 @@ func jsonEq(a, b interface{}) bool {
 
 func c11(r *hx.Run) {
 	fx.Quiet()
-	r.Rule = "full product of builder inputs: 5 key types (EdDSA, ES256, ES384, ES512, ES256K) x 2 hash algorithms x {opaque document, patch list} x anchor origin {nil, string, object} x window {none, from only, from+until, from+until ending at the anchoring time, from only with the implied window ending at the anchoring time} x nonce {absent, 16 bytes} x kid {absent, present}, plus 16 configurations whose signing keys have a coordinate with a leading zero byte; the four client builders with the library's signers and JWK conversion produce create/update/recover/deactivate requests; each must be accepted by the real parser (configured with a server-time window validator, T inside every supplied window, and an anchor-origin validator that must see exactly the supplied origin of create and recover), parse back to the supplied suffix, commitments, patches, reveal value, key and window, and - anchored inside the window on a DID whose commitment matches - resolve on the real processor to the state computed by ref/doc + the supplied commitments. Non-trivial: every configuration (all reach resolution)."
+	r.Rule = "full product of builder inputs: 5 key types (EdDSA, ES256, ES384, ES512, ES256K) x 2 hash algorithms x {opaque document, patch list} x anchor origin {nil, string, object} x window {none, from only, from+until, from+until ending at the anchoring time, from only with the implied window ending at the anchoring time} x nonce {absent, 16 bytes} x kid {absent, present}, plus 16 configurations whose signing keys have a coordinate with a leading zero byte; the four client builders with the library's signers and JWK conversion produce create/update/recover/deactivate requests; each must be accepted by the real parser (configured with a server-time window validator, T inside every supplied window, and an anchor-origin validator that must see exactly the supplied origin of create and recover), parse back to the supplied suffix, commitments, patches, reveal value, key and window, and - anchored inside the window on a DID whose commitment matches - resolve on the real processor to the state computed by ref/doc + the supplied commitments (scenarios: create; +update; +recover; +update+recover; +deactivate; +recover+update at the same time; and, on a DID whose document a recover outside its window has left empty, +update and +deactivate). Non-trivial: every configuration (all reach resolution)."
 	const T = 1000000
 	type cfg struct {
 		kt     string
@@ -325,6 +325,30 @@ func c11(r *hx.Run) {
 					{Op: mk("U2", operation.TypeUpdate, ureq2), Time: T, Num: 3, Published: true}}, after2, commits["u1"], commits["r1"], false})
 			}
 		}
+		// requests applied to a live DID whose document is EMPTY: a recover anchored outside its own window leaves no document but
+		// advances both commitments (u2 / r1); the update built for u2 and a deactivate built for r1 then take effect as intended
+		{
+			lateRI := *ri
+			lateRI.AnchorFrom, lateRI.AnchorUntil = T+10, T+20
+			lateRI.Signer = libSigner(keys["r0"], kid)
+			rreqLate, e1 := client.NewRecoverRequest(&lateRI)
+			rv1, _ := commitment.GetRevealValue(jwks["r1"], c.code)
+			dreq1, e2 := client.NewDeactivateRequest(&client.DeactivateRequestInfo{DidSuffix: suffix, RecoveryKey: jwks["r1"], Signer: libSigner(keys["r1"], kid), RevealValue: rv1, AnchorFrom: from, AnchorUntil: until})
+			rv2, _ := commitment.GetRevealValue(jwks["u2"], c.code)
+			upd3 := []interface{}{fx.AddServicePatch("svc4", "https://example.com/4")}
+			ureq3, e3 := client.NewUpdateRequest(&client.UpdateRequestInfo{DidSuffix: suffix, Patches: toPatches(upd3), UpdateCommitment: commits["u1"],
+				UpdateKey: jwks["u2"], MultihashCode: c.code, Signer: libSigner(keys["u2"], kid), RevealValue: rv2, AnchorFrom: from, AnchorUntil: until})
+			if e1 != nil || e2 != nil || e3 != nil {
+				fail("builder-error:empty-document-scenarios", fmt.Sprintf("%v / %v / %v", e1, e2, e3))
+			} else {
+				late := fx.Placed{Op: mk("Rlate", operation.TypeRecover, rreqLate), Time: T, Num: 1, Published: true}
+				after3, _ := doc.ApplyAll(doc.Doc{}, upd3)
+				scs = append(scs,
+					scenario{"create+recover-outside-window", []fx.Placed{cp, late}, doc.Doc{}, commits["u2"], commits["r1"], false},
+					scenario{"create+recover-outside-window+update", []fx.Placed{cp, late, {Op: mk("U3", operation.TypeUpdate, ureq3), Time: T, Num: 2, Published: true}}, after3, commits["u1"], commits["r1"], false},
+					scenario{"create+recover-outside-window+deactivate", []fx.Placed{cp, late, {Op: mk("D1", operation.TypeDeactivate, dreq1), Time: T, Num: 2, Published: true}}, doc.Doc{}, "", "", true})
+			}
+		}
 		for _, sc := range scs {
 			if c.window >= 3 && sc.name == "create+update+recover" {
 				continue // its recover is anchored one second later, outside a window that ends at T
@@ -346,7 +370,7 @@ func c11(r *hx.Run) {
 			if strings.HasSuffix(sc.name, "recover") {
 				wantOrigin = rorigin
 			}
-			if strings.HasPrefix(sc.name, "create+recover+update") {
+			if strings.HasPrefix(sc.name, "create+recover+update") || strings.HasPrefix(sc.name, "create+recover-outside-window") {
 				wantOrigin = rorigin
 			}
 			if !sc.deact && !jsonEq(rm.AnchorOrigin, wantOrigin) {
